@@ -369,6 +369,241 @@ def shrink_seq(case):
         yield {**case, "ty": x}
 
 
+# ------------------------------------------------------------------ chains of "same type" operations (kind "same")
+# case ::= {"kind": "same", "ty": ty, "reg": [{"name": ext, "types": [def..]}..], "ops": [op..], "mode": str}
+# op   ::= ["resolve", "type" | "arg" | "seq"] | ["copy"] | ["deepcopy"] | ["replace"] | ["roundtrip"]
+# The type is built and observed; each op is applied to the object the previous one returned and the returned
+# object is printed (gty) and observed.  The registry is built through the public ext API
+# (Extension.add_type_def, ExtensionRegistry.add_extension) and printed from the built objects.
+SAME_OPS = {"resolve": "OResolve", "copy": "OCopy", "deepcopy": "ODeepcopy", "replace": "OReplace",
+            "roundtrip": "ORoundtrip"}
+OTHER_EXTS = ["x.other", "vendor.resources", "prelude"]
+OTHER_NAMES = ["Zed", "handle", "Q"]
+
+
+def build_reg(reg):
+    import semver
+    from hugr import ext
+    r = ext.ExtensionRegistry()
+    for e in reg:
+        x = ext.Extension(e["name"], semver.Version(0, 1, 0))
+        for d in e["types"]:
+            b = d["bound"]
+            bound = ext.ExplicitBound(tv._bound(b[1])) if b[0] == "E" else ext.FromParamsBound(list(b[1]))
+            x.add_type_def(ext.TypeDef(name=d["name"], description="generated",
+                                       params=[tv.build_param(q) for q in d["params"]], bound=bound))
+        r.add_extension(x)
+    return r
+
+
+def greg(r) -> str:
+    """The registry as association lists, read from the dicts of the built objects."""
+    return glist(fw.gpair(tv.gname(name), glist(fw.gpair(tv.gname(tn), tv.gdef(td)) for tn, td in x.types.items()))
+                 for name, x in r.extensions.items())
+
+
+_REPLACEABLE = ("Opaque", "ExtType", "FunctionType", "PolyFuncType", "Variable", "RowVariable", "Alias", "Sum", "USize")
+
+
+def apply_same(op, o, reg):
+    import copy
+    import dataclasses
+    from hugr import tys
+    k = op[0]
+    if k == "resolve":
+        if op[1] == "type":
+            return o.resolve(reg)
+        if op[1] == "arg":
+            return tys.TypeTypeArg(o).resolve(reg).ty
+        return tys.SequenceArg([tys.StringArg("x"), tys.TypeTypeArg(o)]).resolve(reg).elems[1].ty
+    if k == "copy":
+        return copy.copy(o)
+    if k == "deepcopy":
+        return copy.deepcopy(o)
+    if k == "replace":
+        # dataclasses.replace re-runs __init__ with the fields: only for the classes whose __init__ is the
+        # generated one (Tuple / UnitSum / the std subclasses take other arguments); a plain copy otherwise
+        return dataclasses.replace(o) if type(o).__name__ in _REPLACEABLE else copy.copy(o)
+    if k == "roundtrip":
+        return o._to_serial().deserialize()
+    raise ValueError(op)
+
+
+def run_same(case, visit):
+    """[visit(root)] + one entry per op: ["ok", visit(returned object)] or ["exc", class name] (the chain ends there)."""
+    reg = build_reg(case["reg"])
+    o = build_ty(case["ty"])
+    out = [visit(o, reg)]
+    for op in case["ops"]:
+        try:
+            o = apply_same(op, o, reg)
+        except Exception as e:
+            out.append(["exc", type(e).__name__])
+            break
+        out.append(["ok", visit(o, reg)])
+    return out
+
+
+def opaques_of(t, acc=None):
+    """(extension, id, number of arguments) of every opaque type anywhere in a description."""
+    acc = [] if acc is None else acc
+    if t[0] == "opaque":
+        acc.append((t[1], t[2], len(t[3])))
+    for c in tv.child_types(t):
+        opaques_of(c, acc)
+    return acc
+
+
+def rand_core(rng, depth):
+    """An opaque type, mostly declared Any, possibly with arguments that hold opaque types themselves."""
+    args = []
+    for _ in range(rng.choice([0, 0, 0, 1, 1, 2])):
+        r = rng.random()
+        if depth > 0 and r < 0.4:
+            args.append(["t", rand_core(rng, depth - 1)])
+        elif depth > 0 and r < 0.55:
+            args.append(["seq", [["t", rand_core(rng, depth - 1)]]])
+        else:
+            args.append(tv.rand_arg(rng, 1, False))
+    return ["opaque", rng.choice(tv.EXTS + OTHER_EXTS[:2]), rng.choice(tv.NAMES + OTHER_NAMES[:2]), args,
+            "A" if rng.random() < 0.65 else "C"]
+
+
+def rand_wrap(rng, t, top):
+    """t one level deeper: inside a row of a sum / function type, or a type argument."""
+    sib = lambda: [rand_ty(rng, rng.choice([0, 0, 1]), False) for _ in range(rng.choice([0, 0, 1, 2]))]
+    r = rng.random()
+    if r < 0.16:
+        return ["tuple", sib() + [t] + sib()]
+    if r < 0.28:
+        rows = [sib() for _ in range(rng.choice([0, 1, 2]))]
+        rows.insert(rng.randint(0, len(rows)), sib() + [t])
+        return ["sum", rows]
+    if r < 0.36:
+        return ["option", [t] + sib()]
+    if r < 0.44:
+        return ["either", sib(), [t] + sib()] if rng.random() < 0.5 else ["either", [t], sib()]
+    if r < 0.56:
+        return ["func", sib() + [t], sib(), []] if rng.random() < 0.5 else ["func", sib(), [t] + sib(), ["e.one"]]
+    if r < 0.62 and top:
+        return ["poly", [tv.rand_param(rng) for _ in range(rng.randint(0, 2))], [t] + sib(), sib()]
+    if r < 0.74:
+        arg = ["t", t] if rng.random() < 0.6 else ["seq", [["n", 3], ["t", t]]]
+        return ["opaque", rng.choice(tv.EXTS), rng.choice(tv.NAMES), [["n", 1]] * rng.choice([0, 1]) + [arg], tv.rand_bound(rng)]
+    if r < 0.84:
+        d = {"ext": rng.choice(tv.EXTS), "name": rng.choice(tv.NAMES), "params": [["type", "A"]],
+             "bound": rng.choice([["P", [0]], ["P", [0]], ["P", []], ["E", "C"], ["E", "A"]])}
+        return ["ext", d, [["t", t]]]
+    if r < 0.92:
+        return ["list", t]
+    return ["array", t, rng.choice([0, 2])]
+
+
+def rand_reg(rng, t):
+    ops_ = opaques_of(t)
+    used_exts = sorted({e for e, _, _ in ops_})
+    mk = lambda name, n: {"name": name, "params": [["type", "A"]] * n,
+                          "bound": (["E", tv.rand_bound(rng)] if n == 0 or rng.random() < 0.5
+                                    else ["P", [rng.randrange(n) for _ in range(rng.choice([0, 1, 1, 2]))]])}
+    free_exts = [e for e in tv.EXTS + OTHER_EXTS if e not in used_exts]
+    r = rng.random()
+    mode = "empty" if r < 0.15 else "other-extensions" if r < 0.35 else "extension-without-type" if r < 0.65 else "partial"
+    reg = {}
+    if mode != "empty":
+        for e in rng.sample(free_exts, min(len(free_exts), rng.choice([0, 1, 2]))):
+            reg[e] = [mk(n, rng.choice([0, 1])) for n in rng.sample(tv.NAMES + OTHER_NAMES, rng.choice([0, 1, 2]))]
+    if mode in ("extension-without-type", "partial"):
+        for e in used_exts:
+            if rng.random() < 0.75:
+                free = [n for n in tv.NAMES + OTHER_NAMES if all((e, n) != (a, b) for a, b, _ in ops_)]
+                reg[e] = [mk(n, rng.choice([0, 1])) for n in rng.sample(free, min(len(free), rng.choice([0, 1, 2])))]
+    if mode == "partial":
+        seen = set()
+        for e, n, k in ops_:
+            if (e, n) not in seen and rng.random() < 0.5:
+                seen.add((e, n))
+                ks = [c for a, b, c in ops_ if (a, b) == (e, n)]
+                reg.setdefault(e, []).append(mk(n, min(ks) if rng.random() < 0.85 else max(ks)))
+    names = list(reg)
+    rng.shuffle(names)
+    return [{"name": e, "types": reg[e]} for e in names], mode
+
+
+def rand_chain_ops(rng):
+    def one(first):
+        r = rng.random()
+        if r < (0.6 if first else 0.45):
+            return ["resolve", rng.choice(["type", "type", "type", "arg", "seq"])]
+        if r < 0.8:
+            return ["roundtrip"]
+        return [rng.choice(["copy", "deepcopy", "replace"])]
+    return [one(i == 0) for i in range(rng.choice([1, 1, 1, 2, 2, 3]))]
+
+
+def rand_same(rng):
+    r = rng.random()
+    if r < 0.04:
+        # ill-formed index list: writing the type raises, every other operation still hands it back unchanged
+        d, args = tv.rand_def_and_args(rng, 2, False)
+        t = ["ext", {**d, "bound": ["P", [len(args) + rng.randint(0, 1)]]}, args]
+        if rng.random() < 0.5:
+            t = rand_wrap(rng, t, False)
+    elif r < 0.2:
+        t = rand_ty(rng, rng.choice([1, 2, 3]), False)
+    else:
+        t = rand_core(rng, rng.choice([0, 1, 1, 2]))
+        for i in range(rng.choice([0, 1, 1, 2, 2, 3])):
+            t = rand_wrap(rng, t, False)
+        if rng.random() < 0.06:
+            t = rand_wrap(rng, t, True)
+    reg, mode = rand_reg(rng, t)
+    ops = rand_chain_ops(rng)
+    if t[0] == "poly":
+        ops = [o for o in ops if o != ["resolve", "seq"]] or [["resolve", "type"]]
+    return {"kind": "same", "ty": t, "reg": reg, "ops": ops, "mode": mode}
+
+
+def same_valid(case):
+    try:
+        build_ty(case["ty"])
+        build_reg(case["reg"])
+        return bool(case["ops"])
+    except Exception:
+        return False
+
+
+def shrink_same(case):
+    ops, reg = case["ops"], case["reg"]
+    for i in range(len(ops)):
+        if len(ops) > 1:
+            yield {**case, "ops": ops[:i] + ops[i + 1:]}
+    for i in range(len(ops) - 1, 0, -1):
+        yield {**case, "ops": ops[:i]}
+    for i, o in enumerate(ops):
+        if o[0] == "resolve" and o[1] != "type":
+            yield {**case, "ops": ops[:i] + [["resolve", "type"]] + ops[i + 1:]}
+        if o[0] in ("deepcopy", "replace"):
+            yield {**case, "ops": ops[:i] + [["copy"]] + ops[i + 1:]}
+    if reg:
+        yield {**case, "reg": []}
+    for i, e in enumerate(reg):
+        yield {**case, "reg": reg[:i] + reg[i + 1:]}
+        for j in range(len(e["types"])):
+            yield {**case, "reg": reg[:i] + [{**e, "types": e["types"][:j] + e["types"][j + 1:]}] + reg[i + 1:]}
+    t = case["ty"]
+    for x in list(tv.shrink_ty(t))[:200]:
+        yield {**case, "ty": x}
+    if t[0] == "opaque":
+        for i, a in enumerate(t[3]):
+            yield {**case, "ty": t[:3] + [t[3][:i] + t[3][i + 1:]] + t[4:]}
+            if a[0] == "seq":
+                for b in a[1]:
+                    yield {**case, "ty": t[:3] + [t[3][:i] + [b] + t[3][i + 1:]] + t[4:]}
+            if a[0] == "t":
+                for x in list(tv.shrink_ty(a[1]))[:40]:
+                    yield {**case, "ty": t[:3] + [t[3][:i] + [["t", x]] + t[3][i + 1:]] + t[4:]}
+
+
 B = {"C": "Copyable", "A": "Any"}
 
 
@@ -386,8 +621,12 @@ class C07(fw.Prop):
             "out of range; the StaticArray constructor on copyable and linear elements; TypeBound.join on all bound "
             "lists up to length 4 and random longer ones; histories of one object graph (observe, then assign / append an "
             "element of a row or argument list, re-assign args / variant_rows / type_def / bound, at any depth, on the "
-            "object or on a copy.copy / copy.deepcopy of it, observe again; 1-3 changes).  non-trivial = the type has a constituent (depth >= 1) or the "
-            "case is a constructor/join case with >= 2 inputs or a history")
+            "object or on a copy.copy / copy.deepcopy of it, observe again; 1-3 changes); chains of 1-3 operations that "
+            "hand the same type back (resolve against a generated registry that is empty / holds other extensions / holds "
+            "the extension without the type / knows some of the opaque types, through Type / TypeTypeArg / SequenceArg "
+            ".resolve; copy.copy, copy.deepcopy, dataclasses.replace; _to_serial().deserialize()) over opaque types of "
+            "both declared bounds nested in sums, function types and type arguments.  non-trivial = the type has a constituent (depth >= 1) or the "
+            "case is a constructor/join case with >= 2 inputs or a history or a chain")
     trusted = ["indices of a from-parameters bound are naturals (negative Python indices, which would wrap around, are "
                "outside the model and the generator)",
                "serialised bounds are read from `_to_serial().model_dump()` by a pre-order walk over dict entries "
@@ -432,7 +671,34 @@ class C07(fw.Prop):
             {"kind": "static", "elem": ["func", [lin], [lin], []]},
             {"kind": "join", "bs": []},
             {"kind": "join", "bs": ["C", "A", "C"]},
-        ] + self.seq_corpus()
+        ] + self.seq_corpus() + self.same_corpus()
+
+    def same_corpus(self):
+        """Chains (seeded round 3): a declared bound survives every operation that hands the same type back."""
+        handle = ["opaque", "vendor.resources", "handle", [], "A"]
+        other = {"name": "Zed", "params": [], "bound": ["E", "C"]}
+        sm = lambda ty, reg, ops: {"kind": "same", "ty": ty, "reg": reg, "ops": ops, "mode": "corpus"}
+        res = ["resolve", "type"]
+        return [
+            # C07-e: the not-found fallback of Opaque.resolve rebuilt the type without its declared bound
+            sm(handle, [], [res]),
+            sm(handle, [{"name": "vendor.resources", "types": [other]}], [res]),                  # TypeNotFound path
+            sm(handle, [{"name": "x.other", "types": [{**other, "name": "handle"}]}], [res]),     # same id elsewhere
+            sm(["tuple", [["bool"], handle]], [], [res]),
+            sm(["func", [handle], [["option", [handle]]], []], [], [["resolve", "arg"]]),
+            sm(["opaque", "e.one", "box", [["seq", [["t", handle]]]], "C"], [], [["resolve", "seq"]]),
+            sm(["poly", [["type", "A"]], [handle], []], [], [res]),
+            sm(["list", handle], [], [["roundtrip"], res]),                                       # the demo's last step
+            # the outer type resolves, the inner one does not: it still keeps its bound
+            sm(["opaque", "e.one", "box", [["t", handle]], "A"],
+               [{"name": "e.one", "types": [{"name": "box", "params": [["type", "A"]], "bound": ["P", [0]]}]}], [res, res]),
+            sm(["tuple", [handle, ["var", 0, "A"], ["alias", "lin", "A"]]], [], [["copy"], ["deepcopy"], ["replace"]]),
+            sm(handle, [], [["replace"], ["roundtrip"], ["deepcopy"]]),
+            sm(["array", ["tuple", [handle]], 2], [], [["roundtrip"], ["roundtrip"]]),
+            # an index list out of range: copies and resolve hand the type back, writing it raises
+            sm(["tuple", [["ext", {"ext": "e.one", "name": "T", "params": [["type", "A"]] * 2, "bound": ["P", [2]]},
+                           [["t", handle], ["t", ["usize"]]]]]], [], [["deepcopy"], res, ["roundtrip"]]),
+        ]
 
     def seq_corpus(self):
         """Histories (seeded round 2): the bound reported / written is that of the type's CURRENT value."""
@@ -499,6 +765,9 @@ class C07(fw.Prop):
                 cases.append({"kind": "join", "bs": list(bs)})
         for _ in range(40 * k):
             cases.append({"kind": "join", "bs": [rng.choice("CCCA") for _ in range(rng.randint(5, 12))]})
+        # chains of operations that hand the same type back (drawn last: the older streams are unchanged)
+        for _ in range(320 * k):
+            cases.append(rand_same(rng))
         return cases
 
     # ------------------------------------------------------------------ implementation
@@ -526,6 +795,8 @@ class C07(fw.Prop):
         if k == "seq":
             return run_seq(case, lambda o, static: [obs_ty(o)] + (
                 [guard(lambda: StaticArray(o).type_bound().value)] if static else []))
+        if k == "same":
+            return run_same(case, lambda o, reg: obs_ty(o))
         return obs_ty(build_ty(case["ty"]))
 
     def literal(self, case, obs, ctx):
@@ -535,10 +806,13 @@ class C07(fw.Prop):
             acc = "(Some true)" if o[0] == "ok" else ("(Some false)" if o == ["exc", "ValueError"] else "None")
             return gapp(ctor, g, acc, gob(o))
 
-        def lit_ty(ctor, g, o):
+        def trip(o):
             oopq = "None" if o["opaque"] is None else gapp("Some", gob(o["opaque"]))
             oser = gopt(glist(B[b] for b in o["serial"][1]) if o["serial"][0] == "ok" else None)
-            return gapp(ctor, g, gob(o["bound"]), oopq, oser)
+            return "%s %s %s" % (gob(o["bound"]), oopq, oser)
+
+        def lit_ty(ctor, g, o):
+            return "(%s %s %s)" % (ctor, g, trip(o))
         if k == "join":
             return gapp("CJoin", glist(B[b] for b in case["bs"]), gob(obs))
         if k == "static":
@@ -550,12 +824,24 @@ class C07(fw.Prop):
                 raise AssertionError("history replay and observations disagree in length")
             return gapp("CSeq", glist(lit_ty("STy", g, o) if tag == "ty" else lit_static("SStatic", g, o)
                                       for (tag, g), o in zip(gs, obs)))
+        if k == "same":
+            # the same chain replayed: registry and types are printed from the objects each operation returned
+            gs = run_same(case, lambda o, reg: (gty(o), greg(reg)))
+            if len(gs) != len(obs) or [x[0] for x in gs[1:]] != [x[0] for x in obs[1:]]:
+                raise AssertionError("chain replay and observations disagree")
+            steps = []
+            for op, g, o in zip(case["ops"], gs[1:], obs[1:]):
+                if g[0] == "ok":
+                    steps.append("(SOp %s (Some %s) %s)" % (SAME_OPS[op[0]], g[1][0], trip(o[1])))
+                else:
+                    steps.append("(SOp %s None None None None)" % SAME_OPS[op[0]])
+            return "(CSame %s %s %s %s)" % (gs[0][1], gs[0][0], trip(obs[0]), glist(steps))
         return lit_ty("CTy", gty(build_ty(case["ty"])), obs)
 
     def nontrivial(self, case, obs):
         if case["kind"] == "ty":
             return tv.depth_of(case["ty"]) >= 1
-        if case["kind"] in ("static", "seq"):
+        if case["kind"] in ("static", "seq", "same"):
             return True
         return len(case["bs"]) >= 2
 
@@ -572,6 +858,8 @@ class C07(fw.Prop):
             return "static_array:" + ("accepted" if obs[0] == "ok" else obs[1])
         if k == "seq":
             return "history:%s:%s" % (case["ty"][0], "+".join(st["op"] for st in case["steps"]))
+        if k == "same":
+            return "same:%s:%s" % (case["ty"][0], "+".join(o[0] for o in case["ops"]))
         return "join"
 
     def shrink(self, case):
@@ -585,6 +873,10 @@ class C07(fw.Prop):
         elif k == "seq":
             for c in shrink_seq(case):
                 if seq_valid(c):
+                    yield c
+        elif k == "same":
+            for c in shrink_same(case):
+                if same_valid(c):
                     yield c
         else:
             bs = case["bs"]
@@ -600,6 +892,17 @@ class C07(fw.Prop):
             out = [c for c in out if seq_valid(c)]
             for _ in range(300):
                 out.append(rand_seq(rng))
+        elif case["kind"] == "same":
+            for i in range(len(case["ops"])):
+                out.append({**case, "ops": case["ops"][:i + 1]})
+                out.append({**case, "ops": case["ops"][i:i + 1]})
+            for op in (["resolve", "type"], ["roundtrip"], ["copy"], ["deepcopy"], ["replace"]):
+                out.append({**case, "ops": [op]})
+                out.append({**case, "reg": [], "ops": [op]})
+            for c in tv.child_types(case["ty"]):
+                out.append({**case, "ty": c})
+            for _ in range(300):
+                out.append(rand_same(rng))
         elif case["kind"] in ("ty", "static"):
             t = case.get("ty", case.get("elem"))
             todo = [t]
@@ -620,7 +923,8 @@ class C07(fw.Prop):
 
     def distribution(self, cases, observations):
         d = {"kinds": {}, "depth": {}, "constructors": {}, "bounds": {}, "raises": 0, "static": {},
-             "history_ops": {}, "history_copy": {}, "history_root": {}, "history_bound_changed": 0}
+             "history_ops": {}, "history_copy": {}, "history_root": {}, "history_bound_changed": 0,
+             "chain_ops": {}, "chain_registry": {}, "chain_linear_opaque": 0, "chain_raised": 0}
         for c, o in zip(cases, observations):
             k = c["kind"]
             d["kinds"][k] = d["kinds"].get(k, 0) + 1
@@ -643,7 +947,22 @@ class C07(fw.Prop):
                 d["history_root"][c["ty"][0]] = d["history_root"].get(c["ty"][0], 0) + 1
                 bs = [x["bound"] for x in o if isinstance(x, dict)]
                 d["history_bound_changed"] += int(any(b != bs[0] for b in bs))
+            elif k == "same":
+                for op in c["ops"]:
+                    key = ":".join(op)
+                    d["chain_ops"][key] = d["chain_ops"].get(key, 0) + 1
+                m = c.get("mode", "?")
+                d["chain_registry"][m] = d["chain_registry"].get(m, 0) + 1
+                d["chain_linear_opaque"] += int('"opaque"' in json.dumps(c["ty"]) and any(
+                    x[0] == "opaque" and x[4] == "A" for x in _all_nodes(c["ty"])))
+                d["chain_raised"] += int(any(x[0] == "exc" for x in o[1:]))
         return d
+
+
+def _all_nodes(t):
+    yield t
+    for c in tv.child_types(t):
+        yield from _all_nodes(c)
 
 
 def serial_bounds(doc):
